@@ -253,6 +253,7 @@ func init() {
 	Properties["C12"] = &PropertySpec{
 		Modules: bt,
 		Rules: []Rule{
+			R40(),
 			R50(),
 			R19(Only19("cam")),
 			Only(R06(), fns(rpcCAM)),
@@ -267,6 +268,7 @@ func init() {
 	Properties["C13"] = &PropertySpec{
 		Modules: bt,
 		Rules: []Rule{
+			Only(R02R03(), fns(rpcMutateRow, rpcMutateRows, rpcCAM, rpcRMW)),
 			Only(R28(), `^c/`),
 			R52(),
 			R45(),
@@ -355,6 +357,8 @@ func init() {
 	Properties["C18"] = &PropertySpec{
 		Modules: bt,
 		Rules: []Rule{
+			R06(),
+			Only(R02R03(), fns("(*table).gc")),
 			Only(R55(), `^c/`, `^d/`),
 			Only(R53(), `^b/`),
 			Only(R01(nil), `/table\.rows/`),
